@@ -57,7 +57,14 @@ func runSpanParserN(fn unmarshal.ParsingFunction, body []byte) ([]traceRow, []ta
 	var tags []tagRow
 	var firstErr error
 	nresp := 0
+	// The portions are only looked at after the parser has finished with the whole body: a
+	// later portion must not disturb the rows of an earlier one (they sit in the insert
+	// queue while the parser goes on).
+	var resps []*wmodel.ParserResponse
 	for resp := range ch {
+		resps = append(resps, resp)
+	}
+	for _, resp := range resps {
 		if resp.Error != nil {
 			if firstErr == nil {
 				firstErr = resp.Error
